@@ -124,6 +124,7 @@ func verifInSim() bool {
 
 //go:nosplit
 func verifSimNext() uint64 {
+	verifSimDraws++
 	verifSimState += 0xa0761d6478bd642f
 	hi, lo := math.Mul64(verifSimState, verifSimState^0xe7037ed1a0b428db)
 	return hi ^ lo
@@ -133,10 +134,16 @@ func verifSimNext() uint64 {
 func verifSimReseed(s uint64) {
 	verifSimState = s
 	verifSchedN = 0
+	verifSimDraws = 0
 }
 
 //go:linkname verifSimOn
 func verifSimOn() bool { return verifSimDeterministic }
+
+var verifSimDraws uint64
+
+//go:linkname verifSimDrawCount
+func verifSimDrawCount() uint64 { return verifSimDraws }
 
 const verifSchedCap = 1 << 16
 
